@@ -144,15 +144,15 @@ PROPS = {
     "C09": {
         "functions": ["Request::poll_read (AsyncRead)", "Request::poll_input", "Request::poll_output", "stream::Parser::{set_stream,consume_stream,stream_buffer}", "stream::Parser::parse (concrete-shaped trace, every cut)", "Role::{input_streams,next_input_stream}"],
         "bounds": "glue: as C08 (one poll, symbolic state, parser contract with a ghost stream of 8 symbolic bytes); stream selection: c18_set_stream (every state); real parser on the trace [Stdin(3 bytes, pad 5) | unknown type | Stdin end] cut at every offset 0..32",
-        "outside": "AsyncBufRead (poll_fill_buf/consume) is exercised only through the shared poll_input(None) path of the contract (dest=None delivery), not through its own harness; writeable()/output_stream() gating is not separately checked; sequences of polls follow by induction over the symbolic state, not by a multi-poll query",
+        "outside": "AsyncBufRead has one harness of its own (c09_glue_fill_buf: one poll_fill_buf + consume from the symbolic state), not a multi-call one; writeable()/output_stream() gating is not separately checked; sequences of polls follow by induction over the symbolic state, not by a multi-poll query",
         "assumptions": [E2, E5, E7, E8, "parser contract stubs (see C08)"],
         "level_text": "Bounded model checking: bytes handed to the caller are exactly the bytes the parser delivered, in order and once (ghost stream), buffered data is served first without touching parser or transport, a 0-byte read happens only at end of stream, a Pending result never loses delivered bytes.",
         "level_note": "",
     },
     "C10": {
-        "functions": ["StreamWriter::poll_write", "RepeatableLockFuture::{new,poll}", "RecordHeader::{set_lengths,to_bytes,padding_bytes}", "futures_util::lock::Mutex (uncontended)"],
+        "functions": ["StreamWriter::poll_write", "Request::poll_output (lock across a partially written reply)", "RepeatableLockFuture::{new,poll}", "RecordHeader::{set_lengths,to_bytes,padding_bytes}", "futures_util::lock::Mutex (uncontended)"],
         "bounds": "one writer (Stdout|Stderr, any id), payload of 3 and 8 (thorough 9) symbolic bytes; the transport checks EVERY vectored write against the one expected record (offered bytes == exactly the unsent rest: header, payload, zero padding) and accepts any 1..n bytes with <= 3 short writes (cuts inside the header, at both seams, inside the padding) and <= 1 Pending; the output lock is held at every Pending and free after completion",
-        "outside": "several writers on separately polled tasks (exclusion is checked as 'lock held while a record is in progress', not by interleaving two writers); payloads > 9 bytes incl. the 65535 cap (set_lengths and try_into().unwrap_or(u16::MAX) are covered for all u16 by c17_set_lengths only); poll_flush; real threads",
+        "outside": "several writers on separately polled tasks (exclusion is checked as 'lock held while a record is in progress' - for StreamWriter records in c10_writer_*, for management replies written by poll_output from a mid-reply start state in c10_glue_reply_lock - not by interleaving two writers); payloads > 9 bytes incl. the 65535 cap (set_lengths and try_into().unwrap_or(u16::MAX) are covered for all u16 by c17_set_lengths only); poll_flush; real threads",
         "assumptions": [E7, E8, "nowaiters: the futures Mutex is never contended in a single-task harness (proved unreachable)"],
         "level_text": "Bounded model checking: for every split of the vectored writes the bytes reaching the transport are exactly one well-formed record with the written payload, the write reports the payload length, and the mutex guard spans the whole record.",
         "level_note": "",
